@@ -668,6 +668,26 @@ var genScenarios = map[string]func(g *Gen) []scriptStep{
 				return Action{Op: &Op{Kind: "SeekTime", Name: sS1, Target: vnow - int64(time.Hour)}}
 			},
 			opStep(&Op{Kind: "GetSub", Name: sS0}), pullStep(sS0, 10), pullStep(sS1, 10),
+			// the retention is then SHORTENED below the age of the revived messages: what the seek gave
+			// back stays until the deadline the seek gave it (a configuration change rewrites no deadline)
+			advStep(5 * time.Minute),
+			opStep(&Op{Kind: "UpdateSub", Sub: &SubReq{Name: sS0, Topic: sT0, MsgTTL: dptr(2 * time.Minute)}, Paths: []string{"message_retention_duration"}}),
+			opStep(&Op{Kind: "GetSub", Name: sS0}), pullStep(sS0, 10), pubStep(sT0, ""), advStep(3 * time.Minute), pullStep(sS0, 10),
+		}
+	},
+	// durations below one second (a protobuf Duration with seconds = 0 and nanos > 0) are durations,
+	// not "unset": stored and reported as given, and enforced (C14, C17)
+	"subsecond-durations": func(g *Gen) []scriptStep {
+		return []scriptStep{
+			opStep(&Op{Kind: "CreateTopic", Name: sT0}),
+			subStep(&SubReq{Name: sS0, Topic: sT0, HasExp: true, TTL: dptr(500 * time.Millisecond), MsgTTL: dptr(250 * time.Microsecond)}),
+			subStep(&SubReq{Name: sS1, Topic: sT0, HasExp: true, TTL: dptr(time.Nanosecond), MsgTTL: dptr(999999999 * time.Nanosecond)}),
+			opStep(&Op{Kind: "GetSub", Name: sS0}), opStep(&Op{Kind: "GetSub", Name: sS1}),
+			subStep(&SubReq{Name: sS2, Topic: sT0}),
+			opStep(&Op{Kind: "UpdateSub", Sub: &SubReq{Name: sS2, Topic: sT0, HasExp: true, TTL: dptr(999999999 * time.Nanosecond)}, Paths: []string{"expiration_policy"}}),
+			opStep(&Op{Kind: "UpdateSub", Sub: &SubReq{Name: sS2, Topic: sT0, MsgTTL: dptr(500 * time.Millisecond)}, Paths: []string{"message_retention_duration"}}),
+			opStep(&Op{Kind: "GetSub", Name: sS2}), pubStep(sT0, ""), advStep(2 * time.Second), pullStep(sS2, 10),
+			opStep(&Op{Kind: "Job", Job: "ExpireSubs", MaxN: 10}), opStep(&Op{Kind: "GetSub", Name: sS0}), opStep(&Op{Kind: "GetSub", Name: sS2}),
 		}
 	},
 	// a retry policy REPLACED by one that names only one bound: the other bound is gone (not kept
@@ -852,7 +872,7 @@ var genScenarios = map[string]func(g *Gen) []scriptStep{
 	},
 }
 
-var scenarioNames = []string{"ordered-replay", "ordered-prune", "snapshot-sibling-acks", "retry-replaced", "dl-then-prune-messages", "prune-expired-minage", "nack-mixed-attempts", "nack-after-ack-dl", "dl-shared-target", "dl-self-loop", "filter-literals", "ttl-raised", "prune-topics-batch-one", "dl-deleted-topic", "dl-ordered-target", "dl-ordered-sweep", "dl-filtered-target", "snapshot-bystander", "snapshot-bystander-rev", "seek-revive-late", "idle-expired-live", "filter-replaced", "ordered-chain", "lease-changes", "ack-mixed-stale", "nack-cross-subs", "recreated-twice", "seek-delayed", "nack-duplicate-id", "ordered-dl-seek", "filter-routing"}
+var scenarioNames = []string{"ordered-replay", "ordered-prune", "snapshot-sibling-acks", "retry-replaced", "dl-then-prune-messages", "prune-expired-minage", "nack-mixed-attempts", "nack-after-ack-dl", "dl-shared-target", "dl-self-loop", "filter-literals", "ttl-raised", "prune-topics-batch-one", "dl-deleted-topic", "dl-ordered-target", "dl-ordered-sweep", "dl-filtered-target", "snapshot-bystander", "snapshot-bystander-rev", "seek-revive-late", "idle-expired-live", "filter-replaced", "ordered-chain", "lease-changes", "ack-mixed-stale", "nack-cross-subs", "recreated-twice", "seek-delayed", "nack-duplicate-id", "ordered-dl-seek", "filter-routing", "seek-retention", "subsecond-durations"}
 
 // scenariosFor lists the templates a generator profile may start with
 func scenariosFor(profile string) []string {
@@ -860,11 +880,11 @@ func scenariosFor(profile string) []string {
 	case "delivery", "general", "prune":
 		return scenarioNames
 	case "seek":
-		return []string{"seek-revive-late", "ordered-chain", "snapshot-bystander", "snapshot-bystander-rev", "ordered-replay", "seek-retention", "snapshot-sibling-acks", "seek-delayed"}
+		return []string{"seek-revive-late", "ordered-chain", "snapshot-bystander", "snapshot-bystander-rev", "ordered-replay", "seek-retention", "snapshot-sibling-acks", "seek-delayed", "ordered-dl-seek"}
 	case "names":
 		return []string{"idle-expired-live", "topic-recreated", "recreated-twice"}
 	case "config":
-		return []string{"filter-replaced", "idle-expired-live", "config-reset-each-field", "filter-literals", "ttl-raised", "seek-retention", "retry-replaced"}
+		return []string{"filter-replaced", "idle-expired-live", "config-reset-each-field", "filter-literals", "ttl-raised", "seek-retention", "retry-replaced", "subsecond-durations"}
 	case "c15":
 		// no reviving seeks in the paired histories
 		return []string{"ordered-prune", "dl-then-prune-messages", "prune-expired-minage", "prune-topics-batch-one", "dl-shared-target", "dl-self-loop", "dl-deleted-topic", "dl-ordered-target", "dl-ordered-sweep", "dl-filtered-target", "idle-expired-live", "filter-replaced"}
